@@ -137,4 +137,24 @@ PROPS = {
              "delivery order; a case is distinct by its bytes",
         trusted=["quick-xml tokeniser (byte-level robustness only exercised)"],
     ),
+    "C13": dict(
+        thm=["Bgpfu.Thm.C13"],
+        ops=[("meta", [])],
+        level_text="Event-level rewrites are decided by theorems: comments between children at every level of the reply "
+                   "and hello grammars (incl. inside <capabilities> and <load-configuration-results>) are invariant for all "
+                   "grammar documents; an XML declaration is invariant for ALL event lists; whitespace around token-valued "
+                   "leaf text is invariant for all strings and paddings (trim_pad_invariant); the empty-element form and "
+                   "comments inside leaf text are NOT invariant (counter-example theorems; known findings). Tokenizer-level "
+                   "rewrites (prefix vs default namespace, inter-element whitespace, attribute order/quoting) are invisible "
+                   "in the event list and are covered by the metamorphic run only.",
+        level_note="The metamorphic run (real code: original vs one rewrite at one target) is testing; it is what ties the "
+                   "theorems' event-level rewrites to text-level rewrites and is the only coverage of the tokenizer-level "
+                   "ones and of the agent's configuration readers (fetch.rs), whose event-level model belongs to C16.",
+        rule="8 reply documents (4 kinds), a hello, an installed configuration and a running configuration with annotated "
+             "statements, each re-serialised with ONE rewrite at ONE target element: prefix style, whitespace between "
+             "elements, attribute quotes/order, XML declaration, comment before root / between children of each element "
+             "/ inside each token leaf, padding of each token leaf, empty-element form of each childless element; a case "
+             "is distinct by (family, rewrite@target)",
+        trusted=["quick-xml tokenisation (absorbs the tokenizer-level rewrites)"],
+    ),
 }
